@@ -31,51 +31,54 @@ Definition within (lo hi : Z) (d : list (Z * Z)) : bool :=
 
 Definition obs := (outcome rv * list (Z * Z) * list (Z * Z))%type.
 
+(* the four shapes of a specification; (base, cap) is the buffer the call was applied to, mem0 the region before *)
+Definition sp_reads (mem0 : memory) (base cap : Z) (r : rv) (d0 : list (Z * Z)) (off len : Z) : bool :=
+  inside cap off len && list_eqb (snd r) (map mem0 (zseq (base + off) len)) && no_change d0.
+Definition sp_writes (base cap : Z) (d0 : list (Z * Z)) (off len : Z) : bool :=
+  inside cap off len && within (base + off) (base + off + len) d0.
+Definition sp_exposes (base cap : Z) (r : rv) (d0 : list (Z * Z)) (off len : Z) : bool :=
+  inside cap off len && list_eqb (fst r) [base + off] && no_change d0.
+Definition sp_string (mem0 : memory) (base cap : Z) (r : rv) (d0 : list (Z * Z)) (off : Z) : bool :=
+  inside cap off 4 &&
+  (let l := wrap32 (le_val (map mem0 (zseq (base + off) 4))) in
+   inside cap (off + 4) l && list_eqb (snd r) (map mem0 (zseq (base + (off + 4)) l))) && no_change d0.
+
 (* c applied to the buffer occupying [base, base + cap) of the root region returned r and changed d0 *)
 Fixpoint spec_ok (scap : Z) (srcm mem0 : memory) (base cap : Z) (c : call) (r : rv) (d0 : list (Z * Z)) : bool :=
-  let nums := fst r in
-  let bytes := snd r in
-  let reads off len :=
-    inside cap off len && list_eqb bytes (map mem0 (zseq (base + off) len)) && no_change d0 in
-  let writes off len := inside cap off len && within (base + off) (base + off + len) d0 in
-  let exposes off len := inside cap off len && list_eqb nums [base + off] && no_change d0 in
-  let string_at off :=
-    inside cap off 4 &&
-    (let l := wrap32 (le_val (map mem0 (zseq (base + off) 4))) in
-     inside cap (off + 4) l && list_eqb bytes (map mem0 (zseq (base + off + 4) l))) && no_change d0 in
   match c with
-  | CNop => list_eqb nums [base; cap] && no_change d0
+  | CNop => list_eqb (fst r) [base; cap] && no_change d0
   | CView off len c' => inside cap off len && spec_ok scap srcm mem0 (base + off) len c' r d0
-  | CGet sz pos | CGetVolatile sz pos | CAsRef sz pos | CGetBytes sz pos => reads pos sz
-  | COverlay sz pos => exposes pos sz
-  | CPut sz pos | CPutOrdered sz pos => writes pos sz
-  | CPutAtomic off _ => writes off 8
-  | CCas sz pos _ _ => writes pos sz
-  | CAddOrdered off _ => writes off 8
+  | CGet sz pos | CGetVolatile sz pos | CAsRef sz pos | CGetBytes sz pos => sp_reads mem0 base cap r d0 pos sz
+  | COverlay sz pos => sp_exposes base cap r d0 pos sz
+  | CPut sz pos | CPutOrdered sz pos => sp_writes base cap d0 pos sz
+  | CPutAtomic off _ => sp_writes base cap d0 off 8
+  | CCas sz pos _ _ => sp_writes base cap d0 pos sz
+  | CAddOrdered off _ => sp_writes base cap d0 off 8
   | CGetAndAdd off _ =>
-      inside cap off 8 && list_eqb bytes (map mem0 (zseq (base + off) 8)) && within (base + off) (base + off + 8) d0
-  | CSetMemory pos len _ => writes pos len
-  | CPutBytes off n => writes off n
-  | CWrite n => writes 0 n
+      sp_writes base cap d0 off 8 && list_eqb (snd r) (map mem0 (zseq (base + off) 8))
+  | CSetMemory pos len _ => sp_writes base cap d0 pos len
+  | CPutBytes off n => sp_writes base cap d0 off n
+  | CWrite n => sp_writes base cap d0 0 n
   | CCopyFrom off soff len =>
-      writes off len && inside scap soff len &&
+      sp_writes base cap d0 off len && inside scap soff len &&
       forallb (fun p => snd p =? srcm (soff + (fst p - (base + off)))) d0
-  | CAsSlice => list_eqb nums [base; cap] && list_eqb bytes (map mem0 (zseq base cap)) && no_change d0
-  | CSubSlice idx len => reads idx len
-  | CGetString off => string_at off
-  | CGetStringWl off len => reads off len
-  | CGetStringLength off => reads off 4
-  | CPutString off n => writes off (n + 4)
+  | CAsSlice => list_eqb (fst r) [base; cap] && list_eqb (snd r) (map mem0 (zseq (base + 0) cap)) && no_change d0
+  | CSubSlice idx len => sp_reads mem0 base cap r d0 idx len
+  | CGetString off => sp_string mem0 base cap r d0 off
+  | CGetStringWl off len => sp_reads mem0 base cap r d0 off len
+  | CGetStringLength off => sp_reads mem0 base cap r d0 off 4
+  | CPutString off n => sp_writes base cap d0 off (n + 4)
   (* where inside the buffer the bytes of put_string_without_length belong is not part of this property *)
   | CPutStringWl off n => inside cap off n && within base (base + cap) d0
-  | FNew sz fb => exposes fb sz
-  | FStringGet _ off => string_at off
-  | FStringGetLength _ off => reads off 4
-  | FStringPut _ off n => writes off (n + 4)
-  | FPutBytes fb off n => writes (fb + off) n
-  | FGetBytes sz fb off => reads (fb + off) sz
-  | FPut sz fb off => writes (fb + off) sz
-  | FOverlay sz fb off => exposes (fb + off) sz
+  (* Flyweight: base_offset + offset is an i32 sum (it wraps in a release build; what matters is where the access lands) *)
+  | FNew sz fb => sp_exposes base cap r d0 fb sz
+  | FStringGet _ off => sp_string mem0 base cap r d0 off
+  | FStringGetLength _ off => sp_reads mem0 base cap r d0 off 4
+  | FStringPut _ off n => sp_writes base cap d0 off (n + 4)
+  | FPutBytes fb off n => sp_writes base cap d0 (wrap32 (fb + off)) n
+  | FGetBytes sz fb off => sp_reads mem0 base cap r d0 (wrap32 (fb + off)) sz
+  | FPut sz fb off => sp_writes base cap d0 (wrap32 (fb + off)) sz
+  | FOverlay sz fb off => sp_exposes base cap r d0 (wrap32 (fb + off)) sz
   end.
 
 Definition holds_call (rcap scap p w : Z) (c : call) (o : obs) : bool :=
